@@ -12,7 +12,8 @@ site is an explicit `.panic` outcome.  Foundation: `Proofs/StrBasics.lean`.
 * `consume_output_fifo`, `output_ledger_step`, `output_ledger` — the reply buffer is a FIFO (C04).
 -/
 namespace Fcgi.C03S
-open Fcgi Fcgi.Req Fcgi.Str
+open Fcgi Fcgi.Str
+open Fcgi.Req (Request PErr)
 
 /-! ## A.1 The invariant and its establishment -/
 
@@ -254,14 +255,15 @@ theorem err_state_op {q : Parser} {e : PErr} (h : ErrState q e) {op : Op} (hl : 
     ErrState (applyOp q op) e := by
   obtain ⟨h1, h2, h3, h4⟩ := h
   cases op with
-  | parse new dest => exact (err_state_parse ⟨h1, h2, h3, h4⟩ new dest hl.1 hl.2).1 ▸
-      (err_state_parse ⟨h1, h2, h3, h4⟩ new dest hl.1 hl.2).2
+  | parse new dest =>
+    obtain ⟨ha, hb⟩ := err_state_parse ⟨h1, h2, h3, h4⟩ new dest hl.1 hl.2
+    simp only [applyOp, ha]; exact hb
   | consumeStream amt => exact ⟨SInv_consumeStream h1 amt, h2, h3, h4⟩
   | compress => exact ⟨SInv_compress h1, h2, h3, h4⟩
   | consumeOutput amt => exact ⟨h1, h2, h3, h4⟩
   | setStream st =>
     simp only [applyOp]
-    cases hr : p.setStream st with
+    cases hr : q.setStream st with
     | ok p' =>
       refine ⟨SInv_setStream h1 hr, ?_⟩
       rcases setStream_ok_cases hr with ⟨-, rfl⟩ | ⟨-, rfl, -⟩
@@ -360,5 +362,49 @@ theorem output_ledger (p : Parser) (ops : List Op) :
   | cons op t ih =>
     simp only [sentAll, grownAll, applyOps_cons, List.append_assoc]
     rw [ih, ← List.append_assoc, output_ledger_step, List.append_assoc]
+
+/-! ## Concrete instances (non-vacuity) -/
+
+section Examples
+
+def exReq : Request := { id := 1, role := 1, flags := 0, env := [] }
+/-- `GetValues(FCGI_MPXS_CONNS = "")` (management record, id 0) followed by a header with version 2. -/
+def exInput : Bytes :=
+  [1, 9, 0, 0, 0, 17, 7, 0] ++ [15, 0] ++ "FCGI_MPXS_CONNS".toUTF8.toList ++ [0, 0, 0, 0, 0, 0, 0] ++
+  [2, 5, 0, 1, 0, 0, 0, 0]
+def ex : Parser := Parser.fromParser 128 exReq [] 10
+
+example : SInv ex := fromParser_inv _ _ _ _ (by decide) (by decide)
+example : exInput.length ≤ ex.free := by decide +kernel
+
+/-- The GetValues record is answered (a 32-byte GetValuesResult record), then the foreign version
+byte is fatal; the offending header stays at the head of `raw`. -/
+example : (ex.parse exInput none).2 = .err (.unknownVersion 2) ∧
+    (ex.parse exInput none).1.raw = [2, 5, 0, 1, 0, 0, 0, 0] ∧
+    (ex.parse exInput none).1.output.length = 32 ∧
+    (ex.parse exInput none).1.pay = 0 ∧ (ex.parse exInput none).1.pad = 0 := by
+  decide +kernel
+
+/-- The error repeats, with and without further input, and the reply buffer does not grow. -/
+example : ((ex.parse exInput none).1.parse [] none).2 = .err (.unknownVersion 2) ∧
+    ((ex.parse exInput none).1.parse [1, 5, 0, 1] (some 10)).2 = .err (.unknownVersion 2) ∧
+    ((ex.parse exInput none).1.parse [1, 5, 0, 1] (some 10)).1.output = (ex.parse exInput none).1.output := by
+  decide +kernel
+
+/-- An `AbortRequest` for this request is the other fatal header. -/
+example : (ex.parse [1, 2, 0, 1, 0, 0, 0, 0] none).2 = .err .abortRequest := by decide +kernel
+
+/-- Exact counts on a successful call: 3 payload bytes of Stdin into a 2-byte `dest`. -/
+example : (ex.parse [1, 5, 0, 1, 0, 3, 5, 0, 7, 8, 9] (some 2)).2 =
+    .ok { stream := 2, streamEnd := false, output := 0, delivered := [7, 8] } ∧
+    (ex.parse [1, 5, 0, 1, 0, 3, 5, 0, 7, 8, 9] (some 2)).1.raw = [9] ∧
+    (ex.parse [1, 5, 0, 1, 0, 3, 5, 0, 7, 8, 9] (some 2)).1.pay = 1 := by
+  decide +kernel
+
+/-- The preconditions are needed: `dest` with a non-empty stream buffer is the Rust `assert!`. -/
+example : (({ ex with parsed := [1] } : Parser).parse [] (some 4)).2 =
+    .panic "stream.rs:335 stream_buffer must be fully consumed" := by decide +kernel
+
+end Examples
 
 end Fcgi.C03S
